@@ -101,6 +101,15 @@ def atoms_catalogue(rng, thorough):
         if r >= 2:
             A.append(leaf("Circshift", s, [1, 2], [-1, 0]))
             A.append(leaf("Circshift", s, [1, -2], [0, 1]))
+    # FiniteDifference factory (TV regularisers): all axes, every single axis (also negative), pairs
+    for s in s1 + s2 + s3:
+        r = len(s)
+        A.append(leaf("FiniteDifference", s, []))
+        for ax in range(-r, r):
+            A.append(leaf("FiniteDifference", s, [ax]))
+        if r >= 2:
+            A.append(leaf("FiniteDifference", s, [0, r - 1]))
+            A.append(leaf("FiniteDifference", s, [-2, -1]))
     # Down/Upsample
     for s in s1 + s2:
         r = len(s)
@@ -208,6 +217,7 @@ def algebra_catalogue():
         leaf("Sum", [2, 3], [0]),
         leaf("Multiply", [3], [2, 1], v21[0], v21[1], [1]),
         leaf("Flip", [2, 3], [1]),
+        leaf("FiniteDifference", [3], []),
         leaf("MatMul", [3, 1], [2, 3], [1, 0, 2, -1, 1, 0], [0, 1, 0, 0, -1, 2], [0]),
     ]
 
@@ -234,10 +244,10 @@ def themes(ctx):
     T.append(dict(name="atoms", atoms=atoms_catalogue(rng, th), scalars=[(2, 0)], axes="{<<>>}", arities="{2}",
                   max_stack=1, max_flat=16 if not th else 24, max_level=2 if not th else 3, calls=["Push", "H", "N", "Conj"]))
     T.append(dict(name="algebra", atoms=algebra_catalogue(), scalars=[(-1, 0), (2, 0), (0, 1), (1, 2)], axes="{<<>>}", arities="{2}",
-                  max_stack=2 if not th else 3, max_flat=12, max_level=3 if not th else 5,
+                  max_stack=2 if not th else 3, max_flat=12, max_level=3 if not th else 4,
                   calls=["Push", "Dup", "Mul", "Add", "Sub", "ScaleL", "ScaleR", "Conj", "H", "N"]))
     T.append(dict(name="stack", atoms=stack_catalogue(), scalars=[(0, 1)], axes=none_and([0, 1, -1, -2, 2, -3]), arities="{2, 3}" if th else "{2}",
-                  max_stack=3 if th else 2, max_flat=16, max_level=5 if th else 3,
+                  max_stack=3 if th else 2, max_flat=16, max_level=4 if th else 3,
                   calls=["Push", "Hstack", "Vstack", "Diag", "H", "N"] + (["Mul"] if th else [])))
     if not th:
         # three operands (split indices beyond the first boundary), fewer atoms / axes to stay small
